@@ -200,7 +200,15 @@ def analyse_unit(repo: Path, pkg: str, mods: dict, agents: set[str], helper_rng:
             # local aliases of config/task fields and of agent positions (flow-insensitive within the function)
             cfg_alias, task_alias, pos_alias = set(), set(), set()
             cfg_shallow_loc, task_shallow_loc = set(), set()
+            cfg_whole, task_whole = set(), set()      # local names bound to the configuration / task object itself (`config = self._config`)
             for n in own_nodes(fn):
+                if isinstance(n, (ast.Assign, ast.AnnAssign)) and isinstance(getattr(n, "value", None), ast.Attribute):
+                    tg = n.targets if isinstance(n, ast.Assign) else [n.target]
+                    rcw = root_chain(n.value)
+                    if rcw and rcw[0] == "self" and rcw[1] in (["_config"], ["_task"]):
+                        for t_ in tg:
+                            if isinstance(t_, ast.Name):
+                                (cfg_whole if rcw[1] == ["_config"] else task_whole).add(t_.id)
                 if isinstance(n, ast.Assign) and len(n.targets) == 1 and isinstance(n.targets[0], ast.Name) and shallow_of(n.value):
                     (cfg_shallow_loc if shallow_of(n.value) == "_config" else task_shallow_loc).add(n.targets[0].id)
                 if isinstance(n, ast.Assign) and len(n.targets) == 1 and isinstance(n.targets[0], ast.Name) and is_uncopied(n.value):
@@ -283,6 +291,10 @@ def analyse_unit(repo: Path, pkg: str, mods: dict, agents: set[str], helper_rng:
                                 facts["cfgWrites"].append({"what": "attribute alias " + U(n.func), "where": where})
                             elif rc[0] == "self" and rc[1][:1] and rc[1][0] in task_attr_alias:
                                 facts["taskWrites"].append({"what": "attribute alias " + U(n.func), "where": where})
+                            elif rc[0] in cfg_whole and rc[1]:
+                                facts["cfgWrites"].append({"what": "through the local name of the configuration " + U(n.func), "where": where})
+                            elif rc[0] in task_whole and rc[1]:
+                                facts["taskWrites"].append({"what": "through the local name of the task " + U(n.func), "where": where})
                             elif rc[0] in cfg_alias:
                                 facts["cfgWrites"].append({"what": "alias " + U(n.func), "where": where})
                             elif rc[0] in task_alias:
@@ -332,6 +344,10 @@ def analyse_unit(repo: Path, pkg: str, mods: dict, agents: set[str], helper_rng:
                         facts["cfgWrites"].append({"what": "through a shallow copy " + U(t), "where": where})
                     elif (base == "self" and len(chain) >= 3 and chain[0] in task_shallow) or (base in task_shallow_loc and len(chain) >= 2):
                         facts["taskWrites"].append({"what": "through a shallow copy " + U(t), "where": where})
+                    elif base in cfg_whole and chain:
+                        facts["cfgWrites"].append({"what": "through the local name of the configuration " + U(t), "where": where})
+                    elif base in task_whole and chain:
+                        facts["taskWrites"].append({"what": "through the local name of the task " + U(t), "where": where})
                     elif base in cfg_alias and chain:
                         facts["cfgWrites"].append({"what": "alias " + U(t), "where": where})
                     elif base in task_alias and chain:
@@ -613,19 +629,19 @@ def analyse_core(repo: Path):
     return core, helper_rng
 
 
-# functions whose model is hand-written (not translated by py2lean) and tied by the correspondence suites: the fingerprint of their
+# functions whose model is hand-written (not translated by py2lean; the ones py2lean has since taken over — Task.get_variables / get_bounds /
+# correct_solution / transform_solution, Multitask.__check_modes__ / __get_mode__, _generate_agents / _init_population — are no longer pinned: the
+# refinement theorems R14 / R20 / R11 are about their text as it is now) and tied by the correspondence suites: the fingerprint of their
 # source text (docstrings and comments removed) is part of the generated facts, so that the model is known to have been validated against
 # exactly the text that is there now; a change of any of them breaks the pin obligation (Props/T14 T19 T20) and sends the check searching
 PINNED = {
     "models.py": ["LabelEncoder", "EarlyStopping", "BaseOptimizationConfig", "Agent", "ContinuousMultiVariable", "DiscreteMultiVariable", "PermutationVariable",
-                  "MultiObjectiveVariable", "BinaryVariable", "Task.__init__", "Task.validate_objective_weights", "Task.get_variables", "Task.get_bounds",
-                  "Task.correct_solution", "Task.empty_solution", "Task.transform_solution"],
+                  "MultiObjectiveVariable", "BinaryVariable", "Task.__init__", "Task.validate_objective_weights", "Task.empty_solution"],
     "hypertuner.py": ["ParameterGrid", "HyperTuner"],
-    "multitask.py": ["Multitask.__init__", "Multitask.__check_modes__", "Multitask.export_results", "Multitask.__run__", "Multitask.execute",
-                     "Multitask.__parallelize__", "Multitask.__get_mode__"],
+    "multitask.py": ["Multitask.__init__", "Multitask.export_results", "Multitask.__run__", "Multitask.execute", "Multitask.__parallelize__"],
     "enums.py": ["ModeSolver", "TaskType", "ExportType"],
     "helpers.py": ["calculate_fitness", "average_fitness", "get_pool_executor"],
-    "abstract.py": ["OptimizationAbstract.__init__", "OptimizationAbstract._generate_agents", "OptimizationAbstract._init_population"],
+    "abstract.py": ["OptimizationAbstract.__init__"],
 }
 
 
